@@ -394,6 +394,31 @@ pub fn child(args: &[String]) -> i32 {
     c01::child(args)
 }
 
+/// Re-execute a self-contained (decode) case; Some(reproduced) or None if the case is not
+/// self-contained.
+pub fn recheck(pid: &str, v: &crate::mc::Viol) -> Option<bool> {
+    let d = v.direct.as_ref()?;
+    if d["kind"] != "decode" {
+        return None;
+    }
+    let ty = oracle::parse_ty(d["ty"].as_str()?)?;
+    let entry = Entry::parse(d["entry"].as_str()?)?;
+    let bytes = unhex(d["hex"].as_str()?)?;
+    let mut l = Local::default();
+    let case = Case { pid, space: d["space"].as_str().unwrap_or("recheck"), ty, entry, bytes: &bytes };
+    let mut checks = checks_for(pid);
+    if pid == "C07" || pid == "C13" || pid == "C01" {
+        // these properties re-run other spaces with their own oracle components
+        checks = checks_for(pid);
+    }
+    check_decode(&case, &checks, &mut l);
+    if pid == "C02" {
+        return None; // C02's reuse checks are outside the decode oracle
+    }
+    let _ = &v.key;
+    Some(!l.viols.is_empty())
+}
+
 /// Replay one recorded case without the explorer.  Exit code 1 if the violation reproduces.
 pub fn replay(path: &str) -> i32 {
     let txt = match std::fs::read_to_string(path) {
